@@ -45,6 +45,18 @@ def build_tree(rng):
     t.mkdir("args/.#.dir.tmp")
     t.add_file("args/.#.dir.tmp/inside.gz", dirty_gz)           # walkdir still descends into the directory
     may.add("args/.#.dir.tmp/inside.gz")
+    # a symbolic link squatting on the temporary name of a file that will be rewritten: it may be removed, never followed
+    t.add_file("outside/victim.txt", b"precious bytes outside the arguments\n")
+    t.symlink("../outside/victim.txt", "args/.#.a.gz.tmp")
+    # files of the other handlers, and sources beside pyc files: a regular one (its mtime may be zeroed on request) and a symlink to outside
+    for n, (data, hs) in samples.per_handler().items():
+        t.add_file("args/all/" + n, data)
+        may.add("args/all/" + n)
+    t.add_file("args/all/mod.cpython-312.pyc", samples.dirty_pyc())
+    may.add("args/all/mod.cpython-312.pyc")
+    t.symlink("../../outside/src.py", "args/all/mod.py")
+    t.add_file("args/all/p.py", b"x = 1\n")
+    may.add("args/all/p.py")
     # symlinks (never followed), to files and directories, inside and outside
     t.symlink("../outside/real.gz", "args/link-out.gz")
     t.symlink("a.gz", "args/link-in.gz")
@@ -74,6 +86,8 @@ def judge(before, after, may):
             fails.append(("entry-added", "directory entry %s appeared" % rel))
             continue
         if a is None:
+            if rel == "args/.#.a.gz.tmp" and "args/a.gz" in may:
+                continue                                # a stale temporary name next to a rewritten file is the tool's to remove
             fails.append(("entry-removed", "directory entry %s disappeared" % rel))
             continue
         if b["kind"] == "D":
@@ -208,6 +222,28 @@ def run(ctx):
                                 mism.append((label, "%s: presence differs (model %s)" % (rel, "absent" if o is None else "present")))
                             elif o is not None and r["kind"] == "R" and (o["data"] != r["data"] or o["mode"] != r["mode"]):
                                 mism.append((label, "%s: content/mode differs from the model" % rel))
+            finally:
+                t.remove()
+    # every handler, the opt-in one included (no model replay: judged by the snapshots only)
+    for args in (["args"], ["args/all", "args/a.gz"]):
+        for mode in ([], ["--check"], ["-j3"]):
+            t, may = build_tree(rng)
+            try:
+                may_here = set(m for m in may for a in args if m == a or m.startswith(a.rstrip("/") + "/"))
+                if "args/lib.a" in may_here:
+                    may_here.add("outside/hard.bin")
+                if "--check" in mode:
+                    may_here = set()
+                before = fh.snapshot(t.root, with_dir_mtime=True)
+                rc, out = fh.run_cli(["--handler", "ar,jar,javadoc,gzip,pyc,pyc-zero-mtime,zip"] + mode + [t.path(a) for a in args], epoch=samples.EPOCH, timeout=60)
+                after = fh.snapshot(t.root, with_dir_mtime=True)
+                nruns += 1
+                label = "all handlers args=%s %s" % (args, " ".join(mode))
+                if rc == 124:
+                    fails.append(("hang", "%s: did not terminate" % label, label))
+                    continue
+                for kind, msg in judge(before, after, may_here):
+                    fails.append((kind, "%s: %s" % (label, msg), label))
             finally:
                 t.remove()
     nb = brp_matrix(ctx, fails, mism) if True else 0
